@@ -1,10 +1,12 @@
 #!/bin/sh
-# tools/seedall.sh [tier]  — regression over every recorded seeded change: applies each patch to /repo (current HEAD),
+# tools/seedall.sh [tier] [property ...]  — regression over every recorded seeded change: applies each patch to /repo (current HEAD),
 # runs the property's check, reverts. Prints one line per change; changes whose meta says they no longer break the
 # property are expected to pass.
-tier=${1:-quick}
+tier=${1:-quick}; [ $# -gt 0 ] && shift
+props=" $* "
 for d in /verif/seeded/C*; do
   l=$(basename $d); p=$(echo $l | cut -d- -f1)
+  [ "$props" = "  " ] || case "$props" in *" $p "*) ;; *) continue;; esac
   [ -f $d/patch.diff ] || continue
   na=$(python3 -c "import json;print(bool(json.load(open('$d/meta.json')).get('invalidated_by')) or json.load(open('$d/meta.json'))['first_run_of_my_check'].startswith('missed and left'))" 2>/dev/null)
   r=$(/verif/tools/seedtest.sh $p $d/patch.diff $tier 2>&1 | tail -1)
